@@ -17,7 +17,6 @@ from bv.engine import vclock
 from bv.engine.acc import Acc, h64
 from bv.engine.pool import run_shards, chunks, HarnessError, WORKERS
 from bv.refs.covref import CovRef
-from bv.stacks import covsys
 from bv.stacks.covsys import CovSystem, KINDS, INITIAL, INCREMENT, COV_PERIOD, SUB_MACS, DEVICE_MAC, DEVICE_INSTANCE
 
 PROPERTY = "C16"
@@ -27,14 +26,15 @@ RULE = ("part1: per configuration (object kind(s), logical subscribers = (stack,
         "timelines of the alphabet {subscribe/re-subscribe(s, confirmed|unconfirmed, lifetime 0|2|5), cancel(s), single "
         "writes (analog: +0.375*increment, +increment, -increment, back to the last reported value, toggle a status flag; "
         "others: toggle, same value, toggle a status flag), bursts = two writes in one instant, advance 1 s / 3 s, read "
-        "activeCovSubscriptions}; every successor is produced by replaying the timeline on fresh real stacks; a state is "
-        "distinct by the canonical snapshot (generic attribute walk) of every COVDetection with its Subscription records "
-        "(confirmed, lifetime, armed expiry relative to now), last reported value, the objects' present value / status flags "
-        "/ monitor counts, the transaction tables, all pending timers relative to now, the clock phase modulo the COV period "
-        "where a periodic object is used, plus the reference model's own state.  Merged on purpose: invoke-id counters and "
-        "IOCB serials (only pair a reply with its request inside one event) and the subscribers' observation logs (judged "
-        "per event).  States in which the oracle failed are reported and not expanded further.  part2: every request form "
-        "x object kind x prior subscription.")
+        "activeCovSubscriptions}; the time-* and renew-time configurations use a restricted alphabet (one bounded qualifying "
+        "write, 1 s steps) so that the search closes; every successor is produced by replaying the timeline on fresh real "
+        "stacks; a state is distinct by the canonical snapshot (generic attribute walk) of every COVDetection with its "
+        "Subscription records (confirmed, lifetime, armed expiry relative to now), last reported value, the objects' present "
+        "value / status flags / monitor counts, the transaction tables, all pending timers relative to now, the clock phase "
+        "modulo the COV period where the periodic object is used, plus the reference model's own state.  Merged on purpose: "
+        "invoke-id counters and IOCB serials (they only pair a reply with its request inside one event) and the subscribers' "
+        "observation logs (judged per event).  States in which the oracle failed are reported and not expanded further.  "
+        "part2: every (object kind, confirmed flag, prior subscription none|indefinite|timed) with the lifetime omitted.")
 ASSUMPTIONS = [
     "single thread; virtual clock bound to bacpypes.task._time; perfect vlan (every frame delivered at once, in order); "
     "subscribers acknowledge every confirmed notification (what happens to unacknowledged ones is not judged)",
@@ -50,19 +50,22 @@ ASSUMPTIONS = [
     "faults (C04/C05) are not covered",
 ]
 BOUNDS = {
-    "quick": "part1: depth<=6 with one subscriber (all five object kinds), depth<=4 with two/three logical subscribers, "
-             "depth<=9 on time-crossing alphabets restricted to 5-6 events; part2: 2 forms x 5 kinds x 3 prior states",
-    "thorough": "part1: depth<=8 with one subscriber, depth<=6 with two logical subscribers (full pair bursts at depth<=5), "
-                "depth<=5 with three, depth<=12 on restricted time-crossing alphabets; part2 as quick",
+    "quick": "part1 depth: one subscriber av<=5, bv/msv<=6 (closure), pc<=4, periodic pc<=5; two stacks av<=4, bv<=4, "
+             "periodic pc<=3; two processes on one stack av<=3; three subscribers av<=3; av+bv mixed<=3; restricted "
+             "time-crossing alphabets <=10 (closure for av); part2: 5 kinds x 2 flags x 3 prior states",
+    "thorough": "part1 depth: one subscriber av<=8, bv/msv<=12 (closure), pc<=6, periodic pc<=7; two stacks av<=5, "
+                "bv<=12 (closure), msv<=5, pc<=4, periodic pc<=4; two processes av<=4, bv<=12; all 25 burst pairs: one "
+                "subscriber av<=5, bv<=12, two stacks av<=4; three subscribers av<=4; mixed<=5; restricted alphabets <=16 "
+                "(closure); part2 as quick",
 }
 
 SMALL = 0.375
 ANALOG = ("av", "pc", "pcp")
 A_WRITES = ("small", "inc", "dec", "back", "flags")
 G_WRITES = ("toggle", "same", "flags")
-A_BURSTS = (("inc", "back"), ("small", "small"), ("small", "inc"), ("inc", "inc"), ("flags", "flags"), ("small", "flags"),
+A_BURSTS = (("inc", "back"), ("small", "small"), ("small", "flags"), ("flags", "flags"), ("small", "inc"), ("inc", "inc"),
             ("dec", "inc"))
-G_BURSTS = (("toggle", "toggle"), ("toggle", "same"), ("same", "toggle"), ("toggle", "flags"), ("flags", "flags"))
+G_BURSTS = (("toggle", "toggle"), ("toggle", "flags"), ("same", "toggle"), ("toggle", "same"), ("flags", "flags"))
 
 
 # ----------------------------------------------------------------------------- configurations
@@ -74,9 +77,11 @@ def make_cfg(label, subs, depth, lifetimes=(0, 2, 5), flags=(False, True), write
     b = {}
     for k in kinds:
         base = A_WRITES if k in ANALOG else G_WRITES
-        w[k] = list(base if writes is None else [t for t in writes if t in base])
+        w[k] = list(base if writes is None else [t for t in writes if t in base or (t == "flip" and k in ANALOG)])
         if bursts == "curated":
             b[k] = [list(p) for p in (A_BURSTS if k in ANALOG else G_BURSTS)]
+        elif bursts == "few":
+            b[k] = [list(p) for p in (A_BURSTS[:4] if k in ANALOG else G_BURSTS[:3])]
         elif bursts == "all":
             b[k] = [[x, y] for x in base for y in base]
         else:
@@ -97,25 +102,31 @@ def configs(tier):
     def subs(ls, kind):
         return [(s, p, kind) for (s, p) in ls]
 
+    cur = "few" if q else "curated"     # quick: 4 (analog) / 3 (others) bursts, thorough: 7 / 5, or all pairs
+    # (depth quick, depth thorough); the generic kinds have few states and reach closure
+    d1 = {"av": (5, 8), "bv": (6, 12), "msv": (6, 12), "pc": (4, 6), "pcp": (5, 7)}
     for kind in ("av", "bv", "msv", "pc", "pcp"):
-        out.append(make_cfg("1sub-%s" % kind, subs(one, kind), 6 if q else 8))
-    for kind in ("av", "bv", "pcp") if q else ("av", "bv", "msv", "pc", "pcp"):
-        out.append(make_cfg("2stacks-%s" % kind, subs(two_addr, kind), 4 if q else 6))
-    out.append(make_cfg("2pids-av", subs(two_pid, "av"), 4 if q else 6))
+        out.append(make_cfg("1sub-%s" % kind, subs(one, kind), d1[kind][0 if q else 1], bursts=cur))
+    d2 = {"av": (4, 5), "bv": (4, 12), "msv": (0, 5), "pc": (0, 4), "pcp": (3, 4)}
+    for kind in ("av", "bv", "msv", "pc", "pcp"):
+        d = d2[kind][0 if q else 1]
+        if d:
+            out.append(make_cfg("2stacks-%s" % kind, subs(two_addr, kind), d, bursts=cur))
+    out.append(make_cfg("2pids-av", subs(two_pid, "av"), 3 if q else 4, bursts=cur))
     if not q:
-        out.append(make_cfg("2pids-bv", subs(two_pid, "bv"), 6))
-        out.append(make_cfg("2stacks-av-allbursts", subs(two_addr, "av"), 5, bursts="all"))
-        out.append(make_cfg("1sub-av-allbursts", subs(one, "av"), 7, bursts="all"))
-        out.append(make_cfg("1sub-bv-allbursts", subs(one, "bv"), 7, bursts="all"))
-    out.append(make_cfg("3subs-av", subs(three, "av"), 3 if q else 5, bursts=(("inc", "back"),)))
-    out.append(make_cfg("mixed-av+bv", [(0, 1, "av"), (1, 1, "bv")], 4 if q else 5,
+        out.append(make_cfg("2pids-bv", subs(two_pid, "bv"), 12))
+        out.append(make_cfg("2stacks-av-allbursts", subs(two_addr, "av"), 4, bursts="all"))
+        out.append(make_cfg("1sub-av-allbursts", subs(one, "av"), 5, bursts="all"))
+        out.append(make_cfg("1sub-bv-allbursts", subs(one, "bv"), 12, bursts="all"))
+    out.append(make_cfg("3subs-av", subs(three, "av"), 3 if q else 4, bursts=(("inc", "back"),)))
+    out.append(make_cfg("mixed-av+bv", [(0, 1, "av"), (1, 1, "bv")], 3 if q else 5,
                         bursts=(("inc", "back"), ("toggle", "toggle"))))
-    # restricted alphabets that cross every expiry with two subscribers
+    # restricted alphabets (one bounded qualifying write, 1 s steps) that cross every expiry
     for kind in ("av", "pcp") if q else ("av", "bv", "pcp"):
-        out.append(make_cfg("time-%s" % kind, subs(two_addr, kind), 9 if q else 12, lifetimes=(2, 5), flags=(True,),
-                            writes=("inc", "toggle"), bursts=(), advs=(1,), read=False, cancel=False))
-    out.append(make_cfg("renew-time-av", subs(one, "av"), 9 if q else 12, lifetimes=(0, 2, 5), flags=(False,),
-                        writes=("inc",), bursts=(), advs=(1,), read=True, cancel=False))
+        out.append(make_cfg("time-%s" % kind, subs(two_addr, kind), 10 if q else 16, lifetimes=(2, 5), flags=(True,),
+                            writes=("flip", "toggle"), bursts=(), advs=(1,), read=False, cancel=False))
+    out.append(make_cfg("renew-time-av", subs(one, "av"), 10 if q else 16, lifetimes=(0, 2, 5), flags=(False, True),
+                        writes=("flip",), bursts=(), advs=(1,), read=True, cancel=False))
     return out
 
 
@@ -143,6 +154,8 @@ def resolve(kind, token, state, reported):
             return (v - INCREMENT[kind], f)
         if token == "back":
             return None if reported is None else (reported[0], f)
+        if token == "flip":                 # one increment up from the initial value, or back down to it
+            return (v + INCREMENT[kind], f) if v <= INITIAL[kind] else (v - INCREMENT[kind], f)
     else:
         if token == "same":
             return (v, f)
@@ -186,13 +199,14 @@ class Run(object):
         self.sysm = CovSystem(n_subscribers=n_stacks, pids=(0, 0))
         self.ref = CovRef(ref_objects(), now=vclock.clock.now)
         self.log = []           # (event, observation summary, problems)
+        self.times = []         # virtual time after each event
         self.phase = any(s[2] == "pcp" for s in cfg["subs"])
 
     def key(self, li):
         stack, pid, kind = self.cfg["subs"][li]
         return (stack, pid, kind)
 
-    def apply(self, ev, judge=True):
+    def apply(self, ev):
         sysm, ref = self.sysm, self.ref
         mark = sysm.mark()
         n_sw = len(sysm.swallowed())
@@ -234,7 +248,8 @@ class Run(object):
             raise HarnessError("unknown event %r" % (ev,))
         notes, replies = sysm.since(mark)
         problems = ref.judge(exp, notes, [[r[:4] for r in rs] for rs in replies], listing, CTX)
-        problems.extend(self.records_invariant())
+        if not os.environ.get("BV_C16_OBSERVABLE_ONLY"):     # (self-test aid: judge by what subscribers see alone)
+            problems.extend(self.records_invariant())
         refused = [p for p in problems if p[0].startswith("cov:subscribe-request-not-acknowledged")]
         if refused:
             problems = refused      # a refused subscription explains the missing record and the missing notification
@@ -245,6 +260,7 @@ class Run(object):
         obs = (tuple(tuple((n["confirmed"], n["pid"], n["obj"], n["remaining"], n["values"], n["t"]) for n in ns) for ns in notes),
                tuple(tuple(r[3] for r in rs) for rs in replies), listing)
         self.log.append((ev, obs, problems))
+        self.times.append(vclock.clock.now)
         if abs(ref.now - vclock.clock.now) > 1e-9:
             raise HarnessError("reference clock %r and virtual clock %r diverged" % (ref.now, vclock.clock.now))
         return problems, obs
@@ -304,6 +320,22 @@ def outcome_label(ev, obs):
         extra = "|listed=%d" % len(listing)
     what = ev[0] if ev[0] != "w" else "w%d" % len(ev[2])
     return "%s|%s|%s%s" % (what, r, n, extra)
+
+
+def brief_obs(obs):
+    """One line per event for the written-out samples."""
+    notes, replies, listing = obs
+    parts = []
+    for i, rs in enumerate(replies):
+        for x in rs:
+            parts.append("stack%d<-%s" % (i, "/".join(map(str, x))))
+    for i, ns in enumerate(notes):
+        for (conf, pid, obj, rem, vals, t) in ns:
+            vv = ",".join("%s=%s" % (v[0], v[2][0] if len(v[2]) == 1 else v[2]) for v in vals)
+            parts.append("stack%d<-%s(pid %s, t=%s, remaining %s, %s)" % (i, "ConfirmedCOV" if conf else "UnconfirmedCOV", pid, t, rem, vv))
+    if listing is not None:
+        parts.append("active=%s" % [(e[1].hex(), e[2], e[3][0], "C" if e[5] else "U", e[6]) for e in listing])
+    return "; ".join(parts) or "silence"
 
 
 # ----------------------------------------------------------------------------- part 1: BFS
@@ -415,6 +447,9 @@ def part1(acc, cfgs, deadline):
             stopped = True
             cut = set(c["label"] for c in active)
             break
+        if os.environ.get("BV_C16_STOP_AT_FIRST") and any(not k.startswith("cov:lifetime-omitted") for k in acc.fails):
+            acc.cap("stopped at the first level with a failure (BV_C16_STOP_AT_FIRST)")
+            break
     all_closed = True
     for c in cfgs:
         label = c["label"]
@@ -489,7 +524,7 @@ def p2_shard(item, deadline):
                                "timeline": [e for e, o, p in r.log]}, {"part": 2, "case": case})
     if item:
         r = p2_run(item[0])
-        acc.sample({"part": 2, "case": item[0], "timeline": [(ev, obs[:2]) for ev, obs, _ in r.log]})
+        acc.sample({"part": 2, "case": item[0], "timeline": ["%r -> %s" % (ev, brief_obs(obs)) for ev, obs, _ in r.log]})
     return acc
 
 
@@ -504,18 +539,23 @@ def run(tier, seed, deadline):
     probe = (("sub", 0, True, 5), ("w", "pcp", ("small",)), ("sub", 1, False, 2), ("adv", 1), ("w", "pcp", ("inc", "back")),
              ("adv", 3), ("read", 0), ("cancel", 0), ("w", "pcp", ("flags",)))
     a = run_timeline(probe_cfg, probe)
+    ha = a.state_hash()         # taken before the next run resets the scheduler under it
     b = run_timeline(probe_cfg, probe)
-    if [(e, o) for e, o, p in a.log] != [(e, o) for e, o, p in b.log] or a.state_hash() != b.state_hash():
+    if [(e, o) for e, o, p in a.log] != [(e, o) for e, o, p in b.log] or ha != b.state_hash():
         raise HarnessError("C16: the same timeline run twice gave two observations")
     acc.sample({"part": 1, "cfg": "probe (two stacks on the periodic pulse converter)",
-                "timeline": [(e, o[:2], [p[0] for p in ps]) for e, o, ps in a.log]})
+                "timeline": ["%r -> %s%s" % (e, brief_obs(o), (" !!! %s" % [p[0] for p in ps]) if ps else "") for e, o, ps in a.log]})
 
     cases2 = list(p2_cases())
     run_shards(p2_shard, chunks(cases2, 8), deadline, into=acc)
     acc.info["part2 cases"] = len(cases2)
 
     cfgs = configs(tier)
-    frontier = part1(acc, cfgs, deadline)
+    # the configurations with small state spaces (generic kinds, restricted alphabets) run to their bound first
+    small = [c for c in cfgs if c["label"].startswith(("time-", "renew-time")) or c["subs"][0][2] in ("bv", "msv")]
+    heavy = [c for c in cfgs if c not in small]
+    frontier = part1(acc, small, deadline)
+    frontier.update(part1(acc, heavy, deadline))
     for label in sorted(frontier)[::4]:
         fr = frontier[label]
         if fr:
@@ -535,21 +575,24 @@ def replay(case):
         r = run_timeline(cfg, hist)
     lines = []
     bad = False
-    for ev, obs, problems in r.log:
-        lines.append("t=%-5s %r" % ("", ev))
+    for (ev, obs, problems), t in zip(r.log, r.times):
+        lines.append("%r   (clock afterwards %s)" % (ev, t))
         for i, rs in enumerate(obs[1]):
             for x in rs:
                 lines.append("        stack%d reply %r" % (i, x))
         for i, ns in enumerate(obs[0]):
-            for (conf, pid, obj, rem, vals, t) in ns:
+            for (conf, pid, obj, rem, vals, tn) in ns:
                 lines.append("        stack%d %s notification t=%s pid=%s obj=%s remaining=%s values=%s"
-                             % (i, "confirmed" if conf else "unconfirmed", t, pid, obj, rem,
+                             % (i, "confirmed" if conf else "unconfirmed", tn, pid, obj, rem,
                                 [(v[0], v[2]) for v in vals]))
         if obs[2] is not None:
             lines.append("        active list %r" % (obs[2],))
         for sig, detail in problems:
-            bad = True
             lines.append("    !!! %s %r" % (sig, detail))
+        if problems:
+            bad = True
+            lines.append("    (what follows the first failing event is its consequence and is not judged)")
+            break
     sw = r.sysm.swallowed()
     if sw:
         lines.append("swallowed: %r" % (sw[:6],))
